@@ -11,6 +11,7 @@ import NflowsModel.Lemmas.SqueezeLayout
 import NflowsModel.Lemmas.RQInverseWhole
 import NflowsModel.Lemmas.StructureExec
 import NflowsModel.Lemmas.StructureExecRQ
+import NflowsModel.Lemmas.ARWhole
 /-!
 # C02 — inverse undoes forward (both orders) and returns the negated log-abs-det
 
@@ -225,5 +226,62 @@ theorem exec_rq_coupling_roundtrip (e : Float → ℝ) (c : ElCfg) (hk : c.kind 
 
 /-- non-vacuity: parameter arrays meeting `RQParamsValid` exist for every layout -/
 example (Ft S B : Nat) := NF.StructureExec.rqParamsValid_example Ft S B
+
+/-! ## the EXECUTED autoregressive transform: `forward`, and the `F`-pass inverse loop of autoregressive.py:43-53 -/
+
+/-- **executed autoregressive transform, any conditioner**: if the conditioner is autoregressive (`AutoregNet`: the parameter
+    block of feature `i` depends on features `< i` only — it may couple batch rows) and the elements invert, then the
+    `F`-pass loop `outputs = zeros; repeat F times: outputs = elementwise_inverse(inputs, net(outputs))` applied to the forward
+    output returns the input array — for every batch size and feature count; after pass `k` the features `< k` are already
+    right (the loop invariant); the last pass raises nothing; the returned log-det is the negated forward one. -/
+theorem exec_autoregressive_inverse_forward (e : Float → ℝ) (c : ElCfg) (B F : Nat) (net : Array ℝ → Array ℝ) (x : Array ℝ)
+    (hnet : NF.ARWhole.AutoregNet B F (NF.ARWhole.pw c) net) (hinv : NF.ARWhole.ArElInvertible (NF.realX e) c F (net x) B)
+    (herr : (NF.ARWhole.arForward (NF.realX e) c B F net x).err = none) (hx : x.size = B * F) :
+    let fwd := NF.ARWhole.arForward (NF.realX e) c B F net x
+    let inv := NF.ARWhole.arInverse (NF.realX e) c B F net fwd.out
+    inv.out = x
+      ∧ (∀ k, NF.ARWhole.AgreeBelow B F k (NF.ARWhole.arIter (NF.realX e) c B F net fwd.out k).out x)
+      ∧ (arApply (NF.realX e) c B F fwd.out (net (NF.ARWhole.arIter (NF.realX e) c B F net fwd.out (F - 1)).out) true).err = none
+      ∧ (0 < F → ∀ b, b < B → inv.ld[b]? = (fwd.ld[b]?).map (fun l => -l)) :=
+  NF.ARWhole.ar_inverse_forward_real e c B F net x hnet hinv herr hx
+
+/-- **masked autoregressive transform with the MADE model as its conditioner, rational-quadratic elements — nothing assumed
+    about the network or the elements**: for every architecture accepted by `Made.build`, every weight / bias assignment, every
+    context, every batch size, both orders of the round trip hold on the box and the log-dets negate. -/
+theorem exec_made_rq_roundtrip (e : Float → ℝ) (c : ElCfg) (hc : NF.ARWhole.RQCfgValid e c) (a : NF.Made.Arch) (n : NF.Made.Net)
+    (hbuild : NF.Made.build a = .ok n) (hmult : a.mult = 3 * c.K + 1) (W : ℕ → ℕ → ℕ → ℝ) (bias : ℕ → ℕ → ℝ) (B : Nat)
+    (ctxv : ℕ → ℕ → Fin B → ℝ) (g : ℕ → NF.Made.Slot → ℕ → (Fin B → ℝ) → Fin B → ℝ) :
+    let net := NF.ARWhole.madeNet n W bias B ctxv g
+    (∀ x : Array ℝ, x.size = B * a.F →
+      NF.ARWhole.InBox (e (NF.StructureExec.rqCfgOf c).box.left) (e (NF.StructureExec.rqCfgOf c).box.right) B a.F x →
+      let fwd := NF.ARWhole.arForward (NF.realX e) c B a.F net x
+      let inv := NF.ARWhole.arInverse (NF.realX e) c B a.F net fwd.out
+      fwd.err = none ∧ inv.err = none ∧ inv.out = x
+        ∧ (∀ k, NF.ARWhole.AgreeBelow B a.F k (NF.ARWhole.arIter (NF.realX e) c B a.F net fwd.out k).out x)
+        ∧ (∀ b, b < B → inv.ld[b]? = (fwd.ld[b]?).map (fun l => -l)))
+    ∧ (∀ y : Array ℝ, y.size = B * a.F →
+      NF.ARWhole.InBox (e (NF.StructureExec.rqCfgOf c).box.bottom) (e (NF.StructureExec.rqCfgOf c).box.top) B a.F y →
+      let inv := NF.ARWhole.arInverse (NF.realX e) c B a.F net y
+      let fwd := NF.ARWhole.arForward (NF.realX e) c B a.F net inv.out
+      inv.err = none ∧ fwd.err = none ∧ fwd.out = y
+        ∧ (∀ b, b < B → fwd.ld[b]? = (inv.ld[b]?).map (fun l => -l))) :=
+  NF.ARWhole.made_rq_roundtrip_real e c hc a n hbuild hmult W bias B ctxv g
+
+/-- the same for the affine elements of `MaskedAffineAutoregressiveTransform` (needs only `0 ≤ e eps`) -/
+theorem exec_made_affine_roundtrip (e : Float → ℝ) (c : ElCfg) (hk : c.kind = "araffine")
+    (he : 0 ≤ e (c.ds.getD 0 0.0)) (a : NF.Made.Arch) (n : NF.Made.Net) (hbuild : NF.Made.build a = .ok n) (hmult : a.mult = 2)
+    (W : ℕ → ℕ → ℕ → ℝ) (bias : ℕ → ℕ → ℝ) (B : Nat) (ctxv : ℕ → ℕ → Fin B → ℝ)
+    (g : ℕ → NF.Made.Slot → ℕ → (Fin B → ℝ) → Fin B → ℝ) (x : Array ℝ) (hx : x.size = B * a.F) :
+    let net := NF.ARWhole.madeNet n W bias B ctxv g
+    (let fwd := NF.ARWhole.arForward (NF.realX e) c B a.F net x
+     let inv := NF.ARWhole.arInverse (NF.realX e) c B a.F net fwd.out
+     fwd.err = none ∧ inv.err = none ∧ inv.out = x
+      ∧ (∀ k, NF.ARWhole.AgreeBelow B a.F k (NF.ARWhole.arIter (NF.realX e) c B a.F net fwd.out k).out x)
+      ∧ (∀ b, b < B → inv.ld[b]? = (fwd.ld[b]?).map (fun l => -l)))
+    ∧ (let inv := NF.ARWhole.arInverse (NF.realX e) c B a.F net x
+       let fwd := NF.ARWhole.arForward (NF.realX e) c B a.F net inv.out
+       inv.err = none ∧ fwd.err = none ∧ fwd.out = x
+        ∧ (∀ b, b < B → fwd.ld[b]? = (inv.ld[b]?).map (fun l => -l))) :=
+  NF.ARWhole.made_affine_roundtrip_real e c hk he a n hbuild hmult W bias B ctxv g x hx
 
 end Properties.C02
